@@ -4,7 +4,7 @@ CONSTANTS Variant = "faithful"
   KMax = 2
   Pool = {3, 772}
   Combos = "all"
-  ShapeNames = {"S1","S2","S3","S4","S5","S5w","S6","S7","S8","UN","A1","A2","A3","A4","A5","P1","PC"}
+  ShapeNames = {"S1","S2","S3","S4","S5","S5w","S6","S7","S8","UN","A1","A2","A3","A4","A5","A6","P1","PC"}
 INVARIANT WellFormed
 INVARIANT ClaimsDisjoint
 INVARIANT FlagIsStructural
